@@ -380,7 +380,7 @@ def _well_formed(prog) -> bool:
             elif st["op"] == "meas":
                 if st["to"]["kind"] == "new":
                     declared.add(st["to"]["name"])
-                elif st["to"]["kind"] == "reg":
+                elif st["to"]["kind"] == "reg" and not st["to"].get("reuse"):
                     regs.add(st["to"]["name"])
             elif st["op"] == "foreach":
                 declared.add(st["var"])
@@ -404,8 +404,16 @@ def _well_formed(prog) -> bool:
             return v["name"] in regs
         return True
 
+    created = set()      # register handles in build order: measuring again into a handle needs the handle to exist already
+
     def walk(stmts):
         for st in stmts:
+            if st["op"] == "meas" and st["to"]["kind"] == "reg":
+                if st["to"].get("reuse"):
+                    if st["to"]["name"] not in created:
+                        return False
+                else:
+                    created.add(st["to"]["name"])
             for k in ("target", "other", "a", "b"):
                 if k in st and st[k] is not None and not ok_val(st[k]):
                     return False
